@@ -559,5 +559,36 @@ def lemmas(ctx, spec):
         sc = And(h0['dk'][M][AP[a]], c.isa(Na, 'EdifNamespace')) if edif else h0['dk'][M][AP[a]]
         out.append(('C10/LEMMA/invariant/sibling-%s-are-unique' % ('identifiers' if edif else 'names'), base + [isEl(a), isEl(b)],
                     Implies(And(AP[a] != c.null, AP[a] == AP[b], c.cls(a) == c.cls(b), sc, ahas[a][KEY], ahas[b][KEY], kv(a) == kv(b)), a == b)))
+    # ---- refinement: the abstract table model of the history-level proof (specs/irns.py: hook_effect) follows from the hook contracts
+    #      NT[P][cls][k] = tab(namespaces[P], type object of cls, k)  for every parent P with tables; likewise the identifier tables of
+    #      EDIF parents; nhas[P] = (P in namespaces); ned(P) = namespaces[P] is an EdifNamespace
+    from specs.irns import hook_effect
+    TAB = ArraySort(c.Ref, ArraySort(c.Cls, ArraySort(c.Ref, c.Ref)))
+    NT0, NTE0 = Const('NT0', TAB), Const('NTE0', TAB)
+    class _F: pass
+    F = _F(); F.sv = spec.sv; F.lowerf = spec.lowerf
+    F.ned = lambda P_: c.isa(h0['dv'][M][P_], 'EdifNamespace')
+    nhas = h0['dk'][M]
+    Pq, Tq, kq = Const('Pq_rf', c.Ref), Const('Tq_rf', c.Cls), Const('kq_rf', c.Ref)
+    def refines(h, NT, NTE):
+        return [ForAll([Pq, Tq, kq], Implies(h['dk'][M][Pq], NT[Pq][Tq][kq] == tab(spec, h, h['dv'][M][Pq], spec.tyobj(Tq), kq)), patterns=[NT[Pq][Tq][kq]]),
+                ForAll([Pq, Tq, kq], Implies(And(h['dk'][M][Pq], c.isa(h['dv'][M][Pq], 'EdifNamespace')),
+                                             NTE[Pq][Tq][kq] == tab(spec, h, h['dv'][M][Pq], spec.tyobj(Tq), kq, True)), patterns=[NTE[Pq][Tq][kq]])]
+    def refinement(tag, kind, fname, ekind_args, P_, x_, key_, val_, pre):
+        h1, cl = contract(fname, 'normal', ekind_args)
+        assume, nt1, nte1 = hook_effect(c, F, kind, NT0, NTE0, nhas, h0['dhas'], h0['dval'], P_, x_, key_, val_)
+        NT1, NTE1 = Const('NT1', TAB), Const('NTE1', TAB)
+        hyps = separation(c, spec, h0) + refines(h0, NT0, NTE0) + pre + cl + [NT1 == nt1, NTE1 == nte1]
+        out.append(('C10/LEMMA/refinement.%s/acceptance-implies-what-the-model-assumes' % tag, hyps, assume))
+        for nm, g in zip(('names', 'identifiers'), refines(h1, NT1, NTE1)):
+            out.append(('C10/LEMMA/refinement.%s/tables-follow-the-contract.%s' % (tag, nm), hyps, g))
+    pre_el = [isEl(x), h0['alloc'][P], c.isa(P, 'Netlist', 'Library', 'Definition')]
+    refinement('add', 'add', 'add', [R(P), R(x)], P, x, None, None, pre_el + arg_pre(c, spec, h0, 'NamespaceManager.add', [None, R(P), R(x)]))
+    refinement('remove', 'remove', 'remove', [R(x), R(c.null), R(P)], P, x, None, None, pre_el)
+    pre_d = [isEl(x), key != c.KEY_NS, c.cls(value) == c.C['Foreign'], h0['alloc'][value]]
+    refinement('dictionary_set', 'dictionary_set', 'dictionary_set', [R(x), ('key', key), R(value)], Px, x, key, value,
+               pre_d + arg_pre(c, spec, h0, 'NamespaceManager.dictionary_set', [None, R(x)]))
+    refinement('dictionary_delete', 'dictionary_delete', 'dictionary_delete', [R(x), ('key', key)], Px, x, key, None, [isEl(x), key != c.KEY_NS])
+    refinement('dictionary_pop', 'dictionary_pop', 'dictionary_pop', [R(x), ('key', key)], Px, x, key, None, [isEl(x), key != c.KEY_NS])
     # vacuity: the hypotheses of each family are satisfiable is checked by the runner (a lemma whose hypotheses are contradictory is reported)
     return out
